@@ -436,6 +436,7 @@ def run(cx, out):
     out.rule('K3', 'item path: one decode + one push per index of 0..chunk')
     out.rule('K4-K5', 'bulk path: length extended by chunk, bytes read from old_len*size on; byte_len by checked_mul')
     out.rule('R02.2', 'array decode_into: bulk read of calculate_array_bytesize bytes; element loop decode_into(slice[count]) then count += 1 while count < N')
+    out.rule('R08.4', 'BytesCursor (decode_from_bytes / zero-copy Bytes): reads and position bookkeeping consume exactly the bytes decoded')
     out.rule('R02.4', 'every non-zero-sized field of a foreign struct is observed by its hand-written encoder')
     for cfg in lib_cfgs(cx):
         facts = cx.facts(cfg)
@@ -446,3 +447,7 @@ def run(cx, out):
         check_kernel(out, facts)
         check_arrays(out, facts)
         check_state_coverage(out, facts, S)
+        if any(i['self'] == 'codec::BytesCursor' for i in facts.impls_of('Input')):
+            # Bytes values are decoded through the cursor: its bookkeeping is part of "consumes exactly the encoding"
+            from . import c08
+            c08.check_bytes_cursor(out, facts)
